@@ -189,6 +189,7 @@ def gen_cases(ctx):
             yield mk(["op:meta_shared_sibling", p1, p2])
             yield mk([p1, "op:meta_replace", p2])
             yield mk([p1, "op:meta_clear", p2])
+            yield mk(["op:euler_then_reduce", p1, p2])
             if st:
                 other = r.choice([p for p in PLANES if p != p1])
                 yield mk(["op:assoc_sibling:" + other, p1, p2])
@@ -375,6 +376,11 @@ def apply_op(tr, op, case):
         tr.downsample(max(1, n // 2))
     elif op == "deepcopy":
         return copy.deepcopy(tr)
+    elif op == "euler_then_reduce":
+        # the Euler angles are looked at (roll/pitch/yaw plot), then the object is reduced to other poses: the projection that
+        # follows works on the poses the object holds NOW (the twin is reduced the same way by the caller of this history)
+        tr.get_orientations_euler("sxyz")
+        tr.reduce_to_ids(list(range(tr.num_poses - 1, -1, -2))[::-1] if tr.num_poses > 2 else [tr.num_poses - 1])
     elif op == "meta_replace":          # the "already projected" state must not live in the public metadata
         tr.meta = {}
     elif op == "meta_clear":
@@ -411,7 +417,10 @@ def run_impl_(case):
     reads = case.get("reads", "none")
     with warnings.catch_warnings():
         warnings.simplefilter("ignore")
-        out = {"before": snapshot(build(case)), "calls": []}          # twin: the object under test is not read
+        b0 = build(case)
+        if "op:euler_then_reduce" in case["calls"]:      # what the projection starts from in this history: the reduced poses
+            b0.reduce_to_ids(list(range(b0.num_poses - 1, -1, -2))[::-1] if b0.num_poses > 2 else [b0.num_poses - 1])
+        out = {"before": snapshot(b0), "calls": []}          # twin: the object under test is not read
         try:
             out["evo_check_before"] = bool(build(case).check()[0])
         except Exception as e:
@@ -419,6 +428,8 @@ def run_impl_(case):
         # twin projected once: the state after the first projection
         b = build(case)
         read_views(b, reads)
+        if "op:euler_then_reduce" in case["calls"]:
+            b.reduce_to_ids(list(range(b.num_poses - 1, -1, -2))[::-1] if b.num_poses > 2 else [b.num_poses - 1])
         b.project(P[next(c for c in case["calls"] if not c.startswith("op:"))])
         out["after"] = snapshot(b)
         out["ops"] = []
@@ -641,7 +652,7 @@ def oracle(ctx, case, impl):
     if not has_ops and all(c == "REFUSED" for c in impl["calls"][1:]) and not same_snapshot(final, after):
         ctx.fail(case, "second-projection-refused", "a refused project() call changed the object", base)
     neutral_ops = [c for c in case["calls"] if c.startswith("op:")]
-    if has_ops and all(c[3:].split(":")[0] in ("meta_replace", "meta_clear", "meta_shared_sibling", "assoc_sibling") for c in neutral_ops) \
+    if has_ops and all(c[3:].split(":")[0] in ("meta_replace", "meta_clear", "meta_shared_sibling", "assoc_sibling", "euler_then_reduce") for c in neutral_ops) \
             and impl["calls"] and impl["calls"][0] == "OK" and all(c == "REFUSED" for c in impl["calls"][1:]) \
             and not same_snapshot(final, after):
         # operations on the metadata / on OTHER objects (siblings sharing metadata, synchronised copies that get projected) do
